@@ -360,35 +360,48 @@ Proof.
     apply (H p u). apply in_triplets. rewrite E. left. reflexivity.
 Qed.
 
-(** * The generic resolution functions coincide with Model/Registry.v's at the defaults *)
-Lemma g_get_symbol_registry r s : g_get_symbol r false (parse_unit_name r) s = get_symbol r s.
+(** * The generic resolution functions coincide with Model/Registry.v's at the defaults
+    (no exact-first [get_symbol], nothing hidden, registration replaces) *)
+Lemma g_get_symbol_registry r s : g_get_symbol r false nohid (parse_unit_name r) s = get_symbol r s.
 Proof. reflexivity. Qed.
-Lemma g_prefixed_def_registry r p u : g_prefixed_def r false (parse_unit_name r) p u = prefixed_def r p u.
+Lemma g_prefixed_def_registry r p u : g_prefixed_def r false nohid (parse_unit_name r) p u = prefixed_def r p u.
 Proof. reflexivity. Qed.
-Lemma g_resolve_registry r s : g_resolve r false (parse_unit_name r) s = resolve r s.
+Lemma g_resolve_registry r s : g_resolve r false nohid false (parse_unit_name r) s = resolve r s.
 Proof. reflexivity. Qed.
-Lemma g_get_name_registry r s : g_get_name r false (parse_unit_name r) s = get_name r s.
-Proof. reflexivity. Qed.
-Lemma g_register_registry r s : g_register r false (parse_unit_name r) s = register r s.
-Proof. reflexivity. Qed.
+Lemma g_get_name_registry r s : g_get_name r false nohid false (parse_unit_name r) s = get_name r s.
+Proof.
+  unfold g_get_name, get_name. destruct (String.eqb s "dimensionless"); [reflexivity|].
+  rewrite <- g_resolve_registry. unfold g_resolve, g_exact, nohid. cbv beta iota.
+  destruct (r_units r !! s); [reflexivity|].
+  destruct (parse_unit_name r s) as [|[p u] l]; [reflexivity|].
+  destruct (String.eqb p ""); [destruct (r_units r !! u); reflexivity | reflexivity].
+Qed.
+Lemma g_register_registry r s : fst (g_register r false nohid false (parse_unit_name r) s) = register r s.
+Proof.
+  unfold g_register, register, g_exact, nohid. cbv beta iota.
+  destruct (r_units r !! s); [reflexivity|].
+  destruct (parse_unit_name r s) as [|[p u] l]; [reflexivity|].
+  destruct (String.eqb p ""); [reflexivity|]. cbn [andb].
+  change (g_prefixed_def r false (λ _, false) (parse_unit_name r) p u) with (prefixed_def r p u).
+  destruct (prefixed_def r p u); reflexivity.
+Qed.
 
 Lemma lookup_defs_true nr name :
-  lookup_defs nr true name = match r_units (n_reg nr) !! name with Some d => [d] | None => [] end.
+  lookup_defs nr nohid true name = match r_units (n_reg nr) !! name with Some d => [d] | None => [] end.
 Proof. reflexivity. Qed.
-(** with case sensitivity on, the case-insensitive index is never consulted *)
 Lemma flat_map_nil {A B} (l : list A) : flat_map (λ _ : A, @nil B) l = [].
 Proof. induction l; [reflexivity | assumption]. Qed.
-Definition cell_cs (nr : nreg) (cs : bool) (s suffix pk : string) : list (string * string) :=
+Definition cell_cs (nr : nreg) (hid : string → bool) (cs : bool) (s suffix pk : string) : list (string * string) :=
   if String.prefix pk s && ends_with suffix s then
     let name := strip_name s pk suffix in
     if plural_guard suffix name then []
     else match r_prefixes (n_reg nr) !! pk with
-         | Some p => map (λ d, (p_name p, u_name d)) (lookup_defs nr cs name)
+         | Some p => map (λ d, (p_name p, u_name d)) (lookup_defs nr hid cs name)
          | None => []
          end
   else [].
-Lemma triplets_cs_cells nr cs s :
-  triplets_cs nr cs s = flat_map (λ suffix, flat_map (cell_cs nr cs s suffix) (r_prefix_keys (n_reg nr))) suffixes.
+Lemma triplets_cs_cells nr hid cs s :
+  triplets_cs nr hid cs s = flat_map (λ suffix, flat_map (cell_cs nr hid cs s suffix) (r_prefix_keys (n_reg nr))) suffixes.
 Proof.
   unfold triplets_cs. apply flat_map_ext. intros suffix. unfold cell_cs.
   destruct (ends_with suffix s).
@@ -396,7 +409,8 @@ Proof.
   - symmetry. etransitivity; [|apply (flat_map_nil (r_prefix_keys (n_reg nr)))].
     apply flat_map_ext. intros pk. rewrite andb_false_r. reflexivity.
 Qed.
-Lemma triplets_cs_true nr s : triplets_cs nr true s = triplets (n_reg nr) s.
+(** with case sensitivity on (and nothing hidden), the case-insensitive index is never consulted *)
+Lemma triplets_cs_true nr s : triplets_cs nr nohid true s = triplets (n_reg nr) s.
 Proof.
   rewrite triplets_cells, triplets_cs_cells.
   apply flat_map_ext. intros suffix. apply flat_map_ext. intros pk. unfold cell, cell_cs.
@@ -405,7 +419,7 @@ Proof.
   rewrite lookup_defs_true.
   destruct (r_prefixes (n_reg nr) !! pk), (r_units (n_reg nr) !! strip_name s pk suffix); reflexivity.
 Qed.
-Lemma n_cand_true nr s : n_cand nr true s = parse_unit_name (n_reg nr) s.
+Lemma n_cand_true nr s : n_cand nr nohid true s = parse_unit_name (n_reg nr) s.
 Proof. unfold n_cand, parse_unit_name. rewrite triplets_cs_true. reflexivity. Qed.
 
 (** * Exact entries first *)
@@ -419,9 +433,9 @@ Proof.
   auto.
 Qed.
 (** the repaired [get_symbol] (defect switch on) reports the definition's symbol *)
-Theorem exact_first_symbol_repaired r cand s d :
-  r_units r !! s = Some d → g_get_symbol r true cand s = Ok (u_symbol d).
-Proof. intros H. unfold g_get_symbol. rewrite H. reflexivity. Qed.
+Theorem exact_first_symbol_repaired r hid cand s d :
+  r_units r !! s = Some d → hid s = false → g_get_symbol r true hid cand s = Ok (u_symbol d).
+Proof. intros H Hh. unfold g_get_symbol, g_exact. rewrite Hh, H. reflexivity. Qed.
 
 (** the unchanged [get_symbol] goes through the candidates: the exact reading comes first in the
     loop, and survives unless a prefixed reading of the same string shadows it (F45) *)
@@ -978,7 +992,7 @@ Definition raw_reading_ci (nr : nreg) (s p u : string) : Prop :=
     r_prefixes (n_reg nr) !! pk = Some pd ∧
     real ∈ default [] (n_casei nr !! lower (strip_name s pk suffix)) ∧
     r_units (n_reg nr) !! real = Some d ∧ p = p_name pd ∧ u = u_name d.
-Lemma in_triplets_ci nr s p u : In (p, u) (triplets_cs nr false s) ↔ raw_reading_ci nr s p u.
+Lemma in_triplets_ci nr hid s p u : In (p, u) (triplets_cs nr hid false s) ↔ raw_reading_ci nr s p u.
 Proof.
   rewrite triplets_cs_cells, in_flat_map. unfold raw_reading_ci. split.
   - intros (suffix & Hs & H). apply in_flat_map in H as (pk & Hk & H). unfold cell_cs in H.
@@ -1003,8 +1017,8 @@ Definition casei_covers (nr : nreg) : Prop :=
 Definition casei_sound (nr : nreg) : Prop :=
   ∀ l x, x ∈ default [] (n_casei nr !! l) → lower x = l.
 
-Theorem casei_superset nr s p u :
-  casei_covers nr → In (p, u) (triplets_cs nr true s) → In (p, u) (triplets_cs nr false s).
+Theorem casei_superset nr hid s p u :
+  casei_covers nr → In (p, u) (triplets_cs nr nohid true s) → In (p, u) (triplets_cs nr hid false s).
 Proof.
   intros C. rewrite triplets_cs_true, in_triplets, in_triplets_ci.
   intros (suffix & pk & Hs & Hk & E1 & E2 & E3 & pd & d & Hpd & Hd & -> & ->).
@@ -1012,8 +1026,8 @@ Proof.
 Qed.
 (** every case-insensitive candidate is a letter-for-letter reading of a string that differs from
     [s] only in the case of the unit part *)
-Theorem casei_only_case nr s p u :
-  casei_sound nr → In (p, u) (triplets_cs nr false s) →
+Theorem casei_only_case nr hid s p u :
+  casei_sound nr → In (p, u) (triplets_cs nr hid false s) →
   ∃ suffix pk real, In suffix suffixes ∧ In pk (r_prefix_keys (n_reg nr)) ∧
     String.prefix pk s = true ∧ ends_with suffix s = true ∧
     lower real = lower (strip_name s pk suffix) ∧
